@@ -105,6 +105,12 @@ if not NATIVE:
         def copy(self):
             return SymKeyDict(self._it)
 
+        __copy__ = copy
+
+        def __deepcopy__(self, memo):
+            import copy as _copy
+            return SymKeyDict([(k, _copy.deepcopy(v, memo)) for k, v in self._it])
+
         def __eq__(self, other):
             return isinstance(other, dict) and list(self.items()) == list(other.items())
 
